@@ -733,7 +733,7 @@ func ctxShortened(v ssa.Value) bool {
 // C10 ("keeps re-sending until a final answer arrives", bounded by the caller's context only)
 // and C13.
 func checkContextUndiminished(c *Ctx, r *Report) {
-	r.Rule("context-undiminished", "a context derived with WithTimeout/WithDeadline is passed to Transport.Send only (one attempt); commands, handshake steps and retry loops run under the caller's own context", 3)
+	r.Rule("context-undiminished", "a context derived with WithTimeout/WithDeadline is passed to Transport.Send only (one attempt); commands, handshake steps and retry loops run under the caller's own context", 1)
 	n := 0
 	for _, fn := range c.LibFuncs() {
 		fn := fn
